@@ -241,37 +241,46 @@ Theorem async_destroy_clause_in_full : forall A pre rounds,
 Proof. exact destroy_returns_drained_and_clean. Qed.
 Print Assumptions async_destroy_clause_in_full.
 
-(* Handler levels are live state (muggle_log_handler_set_level at any time); the logger's
-   lowest_log_level is a snapshot updated only by add_handler.  As the code computes it, for
-   EVERY logger state: a call reaches handler i iff it passes the logger's snapshot test AND the
-   handler's current level test. *)
-Theorem handler_level_filter_as_coded : forall format fixed lg level id text i h,
-  nth_error (lg_handlers lg) i = Some h ->
-  emits_to i (sync_log format code_levels code_limit fixed lg level id text)
-  = if (lg_lowest lg <=? level) && (h_level h <=? level) then 1%nat else 0%nat.
-Proof. intros. apply filter_as_coded. assumption. Qed.
-Print Assumptions handler_level_filter_as_coded.
-
-(* Known finding stale-lowest-level.  in_stale_class = some set_level lowers an ATTACHED
-   handler's level below the logger's snapshot.
-   FULL STATEMENT (handler_level_filter_exact): for every history of add_handler / set_level /
-   log calls, handler i's stream gets exactly the calls whose level >= handler i's level at the
-   time of the call.  Proved outside the class (levels raised, set above FATAL or below TRACE,
-   lowered but not below the snapshot, any number of handlers): *)
-Theorem handler_level_filter_exact_partial : forall format fixed pre post level id text i h,
-  in_stale_class code_levels (logger_init code_levels) (pre ++ HLog level id text :: post) = false ->
+(* Handler levels are live state (muggle_log_handler_set_level at any time).  Repaired code
+   (fixes/C16-stale-lowest-level.patch: the early-out of the log functions asks the attached
+   handlers instead of the lowest_log_level snapshot): for EVERY history of add_handler /
+   set_level / log calls — levels raised, lowered, above FATAL, below TRACE, any number of
+   handlers — a log call produces exactly one line for handler i iff its level is at or above
+   handler i's level at the time of the call.  (The async logger applies the same tests:
+   async_accepted_message_same_lines.) *)
+Theorem handler_level_filter_exact : forall format pre level id text i h,
   nth_error (lg_handlers (hrun code_levels pre)) i = Some h ->
-  emits_to i (sync_log format code_levels code_limit fixed (hrun code_levels pre) level id text)
+  emits_to i (sync_log format code_levels code_limit true (hrun code_levels pre) level id text)
   = if h_level h <=? level then 1%nat else 0%nat.
-Proof. intros. apply filter_exact_history with (post := post); assumption. Qed.
-Print Assumptions handler_level_filter_exact_partial.
+Proof. intros. apply filter_exact_history. assumption. Qed.
+Print Assumptions handler_level_filter_exact.
 
-(* Inside the class the statement is false for the code: handler attached at INFO, lowered to
-   DEBUG, a DEBUG call (at the handler's level) is dropped by the stale snapshot. *)
-Theorem handler_level_filter_refuted :
-  in_stale_class code_levels (logger_init code_levels) (stale_witness ++ [HLog 256 0 []]) = true /\
-  exists h, nth_error (lg_handlers (hrun code_levels stale_witness)) 0 = Some h /\ h_level h <=? 256 = true /\
-  forall format limit fixed,
-    emits_to 0 (sync_log format code_levels limit fixed (hrun code_levels stale_witness) 256 0 []) = 0%nat.
-Proof. exact (stale_refuted_gen code_levels eq_refl eq_refl). Qed.
-Print Assumptions handler_level_filter_refuted.
+(* In the concurrent scenarios the handler levels are static; the early-out "no attached handler
+   accepts the level" is then the fixed threshold min_level (the sc_lowest / as_lowest of the
+   interleaving models). *)
+Theorem handler_level_prefilter_static : forall hs level,
+  match min_level hs with
+  | Some m => existsb (fun h => should_write h level) hs = (m <=? level)
+  | None => hs = []
+  end.
+Proof. exact prefilter_static. Qed.
+Print Assumptions handler_level_prefilter_static.
+
+(* The code as first found tested the snapshot lowest_log_level (updated only by add_handler): a
+   call reached handler i iff snapshot <= level and handler level <= level; so after a handler
+   attached at INFO was lowered to DEBUG, a DEBUG call produced no line (before the repair) and
+   produces one (after).  Kept as the record of the defect. *)
+Theorem handler_level_filter_stale_before_repair :
+  (forall format lg level id text i h, nth_error (lg_handlers lg) i = Some h ->
+     emits_to i (sync_log format code_levels code_limit false lg level id text)
+     = if (lg_lowest lg <=? level) && (h_level h <=? level) then 1%nat else 0%nat) /\
+  (exists h, nth_error (lg_handlers (hrun code_levels stale_witness)) 0 = Some h /\ h_level h <=? 256 = true /\
+     forall format limit,
+       emits_to 0 (sync_log format code_levels limit false (hrun code_levels stale_witness) 256 0 []) = 0%nat /\
+       emits_to 0 (sync_log format code_levels limit true (hrun code_levels stale_witness) 256 0 []) = 1%nat).
+Proof.
+  split.
+  - intros. apply filter_as_first_found. assumption.
+  - exact (stale_before_and_after code_levels eq_refl eq_refl).
+Qed.
+Print Assumptions handler_level_filter_stale_before_repair.
